@@ -124,39 +124,64 @@ theorem separateRules_concat (rs : List Text) (h : ∀ r ∈ rs, OneRule r) : se
   rw [e, hs]
   simp
 
+/-- no parenthesis, bracket or quote is open -/
+def ZeroNest (st : StripSt) : Prop := st.round = 0 ∧ st.square = 0 ∧ st.inQuotes = false
+
+theorem zeroNest_reset {st : StripSt} (h : ZeroNest st) : ({ st with prev := 'x' } : StripSt) = {} := by
+  obtain ⟨p, r, q, iq⟩ := st
+  obtain ⟨h1, h2, h3⟩ := h
+  simp only at h1 h2 h3
+  subst h1 h2 h3
+  rfl
+
+/-- a line that leaves nothing open: scanned on its own it ends with all parentheses, brackets and quotes closed -/
+def LineClosed (line : Text) : Prop := ZeroNest (endState line {})
+
+/-- from a state in which nothing is open, a line is stripped as it would be on its own -/
+theorem stripCommentsIn_zero {st : StripSt} (h : ZeroNest st) (line : Text) :
+    stripCommentsIn st line = (stripComments line, endState line {}) := by
+  unfold stripComments stripCommentsIn
+  simp only [zeroNest_reset h]
+
 /-- what one line contributes to the text handed to `separate_rules` -/
 def lineText (line : Text) : Text :=
   let p := stripComments line
   if p.isEmpty then [] else p ++ (if p.getLast? == some '.' then [] else [' '])
 
-theorem joinLines_spec : ∀ (lines : List Text) (acc : Text),
-    (∀ l ∈ lines, checkLastChar (stripComments l) = true) →
-    joinLines lines acc = .ok (acc ++ (lines.map lineText).flatten) := by
+theorem joinLinesIn_spec : ∀ (lines : List Text) (acc : Text) (st : StripSt), ZeroNest st →
+    (∀ l ∈ lines, checkLastChar (stripComments l) = true ∧ LineClosed l) →
+    joinLinesIn lines acc st = .ok (acc ++ (lines.map lineText).flatten) := by
   intro lines
   induction lines with
-  | nil => intro acc _; simp [joinLines]
+  | nil => intro acc st _ _; simp [joinLinesIn]
   | cons l rest ih =>
-    intro acc h
+    intro acc st hz h
     have hl := h l (by simp)
-    have hrest : ∀ l' ∈ rest, checkLastChar (stripComments l') = true := fun l' hl' => h l' (by simp [hl'])
-    simp only [joinLines, List.map_cons, List.flatten_cons]
+    have hrest : ∀ l' ∈ rest, checkLastChar (stripComments l') = true ∧ LineClosed l' := fun l' hl' => h l' (by simp [hl'])
+    simp only [joinLinesIn, stripCommentsIn_zero hz, List.map_cons, List.flatten_cons]
     by_cases he : (stripComments l).isEmpty = true
     · simp only [he, if_true]
-      rw [ih acc hrest]
+      rw [ih acc _ hl.2 hrest]
       simp [lineText, he]
-    · simp only [he, hl]
+    · simp only [he, hl.1]
       simp only [Bool.not_true, Bool.false_eq_true, if_false]
-      rw [ih _ hrest]
+      rw [ih _ _ hl.2 hrest]
       simp [lineText, he, List.append_assoc]
 
-theorem joinLines_reject : ∀ (lines : List Text) (acc : Text),
-    (∃ l ∈ lines, checkLastChar (stripComments l) = false) → joinLines lines acc = .fail := by
+theorem joinLines_spec (lines : List Text) (acc : Text)
+    (h : ∀ l ∈ lines, checkLastChar (stripComments l) = true ∧ LineClosed l) :
+    joinLines lines acc = .ok (acc ++ (lines.map lineText).flatten) :=
+  joinLinesIn_spec lines acc {} ⟨rfl, rfl, rfl⟩ h
+
+theorem joinLinesIn_reject : ∀ (lines : List Text) (acc : Text) (st : StripSt), ZeroNest st → (∀ l ∈ lines, LineClosed l) →
+    (∃ l ∈ lines, checkLastChar (stripComments l) = false) → joinLinesIn lines acc st = .fail := by
   intro lines
   induction lines with
-  | nil => intro acc h; obtain ⟨l, hl, _⟩ := h; cases hl
+  | nil => intro acc st _ _ h; obtain ⟨l, hl, _⟩ := h; cases hl
   | cons l rest ih =>
-    intro acc h
-    simp only [joinLines]
+    intro acc st hz hcl h
+    have hcl' : ∀ l' ∈ rest, LineClosed l' := fun l' hl' => hcl l' (by simp [hl'])
+    simp only [joinLinesIn, stripCommentsIn_zero hz]
     by_cases hc : checkLastChar (stripComments l) = true
     · have hrest : ∃ l' ∈ rest, checkLastChar (stripComments l') = false := by
         obtain ⟨l', hl', hf⟩ := h
@@ -164,13 +189,17 @@ theorem joinLines_reject : ∀ (lines : List Text) (acc : Text),
         · rw [hc] at hf; cases hf
         · exact ⟨l', hm, hf⟩
       by_cases he : (stripComments l).isEmpty = true
-      · simp [he, ih acc hrest]
-      · simp [he, hc, ih _ hrest]
+      · simp [he, ih acc _ (hcl l (by simp)) hcl' hrest]
+      · simp [he, hc, ih _ _ (hcl l (by simp)) hcl' hrest]
     · have he : (stripComments l).isEmpty = false := by
         cases hs : stripComments l with
         | nil => simp [hs, checkLastChar] at hc
         | cons a b => rfl
       simp [he, hc]
+
+theorem joinLines_reject (lines : List Text) (acc : Text) (hcl : ∀ l ∈ lines, LineClosed l)
+    (h : ∃ l ∈ lines, checkLastChar (stripComments l) = false) : joinLines lines acc = .fail :=
+  joinLinesIn_reject lines acc {} ⟨rfl, rfl, rfl⟩ hcl h
 
 
 
@@ -442,7 +471,8 @@ theorem stripComments_line {p indent trail comment : Text} (hp : CleanPiece p)
     rw [show indent ++ p ++ trail ++ rest = indent ++ (p ++ (trail ++ rest)) from by simp]
     rw [commentStart_append _ _ _ _ s1.1, commentStart_append _ _ _ _ s2, commentStart_append _ _ _ _ s3.1]
     simp
-  unfold stripComments
+  unfold stripComments stripCommentsIn
+  simp only
   rcases hc with rfl | ⟨r, rfl⟩ | ⟨r, rfl⟩ | ⟨r, rfl⟩
   · rw [hscan []]; simp only [commentStart, List.append_nil]; exact trim_pad hp hi ht
   · rw [hscan]
@@ -466,5 +496,95 @@ theorem stripComments_line {p indent trail comment : Text} (hp : CleanPiece p)
     simp only [Nat.add_sub_cancel]
     rw [show indent ++ p ++ trail ++ '/' :: '/' :: r = (indent ++ p ++ trail) ++ '/' :: '/' :: r from rfl, List.take_left' (by simp; omega)]
     exact trim_pad hp hi ht
+
+theorem endState_append : ∀ (a b : Text) (i : Nat) (st : StripSt), commentStart a i st = none →
+    endState (a ++ b) st = endState b (stripScan a st) := by
+  intro a
+  induction a with
+  | nil => intro b i st _; simp [stripScan]
+  | cons ch a ih =>
+    intro b i st h
+    simp only [List.cons_append, commentStart, endState, stripScan] at h ⊢
+    split
+    · rename_i h0; simp only [h0, if_true] at h ⊢; exact ih _ _ _ h
+    split
+    · rename_i h0 hq; simp only [h0, hq, if_true, Bool.false_eq_true, if_false] at h ⊢; exact ih _ _ _ h
+    split
+    · rename_i h0 hq h1; simp only [h0, hq, h1, if_true, Bool.false_eq_true, if_false] at h ⊢; exact ih _ _ _ h
+    split
+    · rename_i h0 hq h1 h2; simp only [h0, hq, h1, h2, if_true, Bool.false_eq_true, if_false] at h ⊢; exact ih _ _ _ h
+    split
+    · rename_i h0 hq h1 h2 h3; simp only [h0, hq, h1, h2, h3, if_true, Bool.false_eq_true, if_false] at h ⊢; exact ih _ _ _ h
+    split
+    · rename_i h0 hq h1 h2 h3 h4; simp only [h0, hq, h1, h2, h3, h4, if_true, Bool.false_eq_true, if_false] at h ⊢; exact ih _ _ _ h
+    · rename_i h0 hq h1 h2 h3 h4
+      simp only [h0, hq, h1, h2, h3, h4, Bool.false_eq_true, if_false] at h ⊢
+      by_cases hd : (st.round == 0 && st.square == 0) = true
+      · simp only [hd, if_true] at h ⊢
+        by_cases hc : (ch == '#' || ch == '%') = true
+        · simp only [hc, if_true] at h; cases h
+        · by_cases hs : (ch == '/' && st.prev == '/') = true
+          · simp only [hc, hs, if_true, Bool.false_eq_true, if_false] at h; cases h
+          · simp only [hc, hs, Bool.false_eq_true, if_false] at h ⊢
+            exact ih _ _ _ h
+      · simp only [hd, Bool.false_eq_true, if_false] at h ⊢
+        exact ih _ _ _ h
+
+/-- such a line leaves nothing open for the next one -/
+theorem line_closed {p indent trail comment : Text} (hp : CleanPiece p)
+    (hi : ∀ c ∈ indent, isWs c = true) (ht : ∀ c ∈ trail, isWs c = true) (hc : IsComment comment) :
+    LineClosed (indent ++ p ++ trail ++ comment) := by
+  have s1 := commentStart_ws indent 0 {} hi
+  have hprev1 : (stripScan indent {}).prev ≠ '/' := by
+    rw [s1.2.2.2.1]
+    cases hl : indent.getLast? with
+    | none => simp
+    | some z => simp; exact (ws_not_special (hi z (List.mem_of_getLast? hl))).2.2.2.2.2.2.1
+  have s2 : commentStart p (0 + indent.length) (stripScan indent {}) = none :=
+    commentStart_none_indep p 0 _ {} _ (by rw [s1.2.1]) (by rw [s1.2.2.1]) (by rw [s1.2.2.2.2])
+      (by constructor
+          · intro h; exact absurd h (by decide : ¬ ({} : StripSt).prev = '/')
+          · intro h; exact absurd h hprev1) hp.noComment
+  have r2 := stripScan_rel p (stripScan indent {}) {} s1.2.2.2.2
+  obtain ⟨z, hz⟩ : ∃ z, p.getLast? = some z := by
+    cases hl : p.getLast? with
+    | none => simp [List.getLast?_eq_none_iff] at hl; exact absurd hl hp.ne
+    | some z => exact ⟨z, rfl⟩
+  have s3 := commentStart_ws trail (0 + indent.length + p.length) (stripScan p (stripScan indent {})) ht
+  have hdepth : ZeroNest (stripScan trail (stripScan p (stripScan indent {}))) := by
+    unfold ZeroNest
+    rw [s3.2.1, s3.2.2.1, s3.2.2.2.2, r2.1, r2.2.1, r2.2.2.2, s1.2.1, s1.2.2.1, hp.closed.1, hp.closed.2.1, hp.closed.2.2]; simp
+  have hprev3 : (stripScan trail (stripScan p (stripScan indent {}))).prev ≠ '/' := by
+    rw [s3.2.2.2.1, r2.2.2.1, hz]
+    cases hl : trail.getLast? with
+    | none => simp; exact (hp.last z hz).2
+    | some y => simp; exact (ws_not_special (ht y (List.mem_of_getLast? hl))).2.2.2.2.2.2.1
+  have hscan : ∀ rest, endState (indent ++ p ++ trail ++ rest) {} =
+      endState rest (stripScan trail (stripScan p (stripScan indent {}))) := by
+    intro rest
+    rw [show indent ++ p ++ trail ++ rest = indent ++ (p ++ (trail ++ rest)) from by simp]
+    rw [endState_append _ _ _ _ s1.1, endState_append _ _ _ _ s2, endState_append _ _ _ _ s3.1]
+  unfold LineClosed
+  rw [hscan]
+  obtain ⟨d1, d2, d3⟩ := hdepth
+  rcases hc with rfl | ⟨r, rfl⟩ | ⟨r, rfl⟩ | ⟨r, rfl⟩
+  · simp only [endState]; exact ⟨d1, d2, d3⟩
+  · simp only [endState, d1, d2, d3, show (('#' : Char) == '"') = false from by decide, show (('#' : Char) == '(') = false from by decide,
+      show (('#' : Char) == '[') = false from by decide, show (('#' : Char) == ')') = false from by decide,
+      show (('#' : Char) == ']') = false from by decide, Bool.false_eq_true, if_false,
+      show ((0:Int) == 0 && (0:Int) == 0) = true from rfl, if_true, show (('#' : Char) == '#' || ('#' : Char) == '%') = true from by decide]
+    exact ⟨d1, d2, d3⟩
+  · simp only [endState, d1, d2, d3, show (('%' : Char) == '"') = false from by decide, show (('%' : Char) == '(') = false from by decide,
+      show (('%' : Char) == '[') = false from by decide, show (('%' : Char) == ')') = false from by decide,
+      show (('%' : Char) == ']') = false from by decide, Bool.false_eq_true, if_false,
+      show ((0:Int) == 0 && (0:Int) == 0) = true from rfl, if_true, show (('%' : Char) == '#' || ('%' : Char) == '%') = true from by decide]
+    exact ⟨d1, d2, d3⟩
+  · have hne : ((stripScan trail (stripScan p (stripScan indent {}))).prev == '/') = false := by simpa using hprev3
+    simp only [endState, d1, d2, d3, show (('/' : Char) == '"') = false from by decide, show (('/' : Char) == '(') = false from by decide,
+      show (('/' : Char) == '[') = false from by decide, show (('/' : Char) == ')') = false from by decide,
+      show (('/' : Char) == ']') = false from by decide, Bool.false_eq_true, if_false,
+      show ((0:Int) == 0 && (0:Int) == 0) = true from rfl, if_true, show (('/' : Char) == '#' || ('/' : Char) == '%') = false from by decide,
+      show (('/' : Char) == '/') = true from by decide, Bool.true_and, hne]
+    exact ⟨rfl, rfl, rfl⟩
 
 end Suiron.Parse
